@@ -192,6 +192,51 @@ def auto_discharge(facts, s, cache):
                     if arm_ge is not None and arm_ge in dom.get(s["bb"], ()):
                         return "subtraction dominated by the guard `%s %s %s` (other arm)" % (x, op, y)
         return None
+    # 1b. `i + 1` / a slice bounds check `i < len`, dominated by the true side of a comparison `i < n`:
+    #     i < n <= usize::MAX, so i + 1 cannot overflow; and when n is the length of the indexed slice the bounds
+    #     check repeats the guard
+    if s["kind"] == "assert" and (re.match(r"^Add\((.*),1\):usize$", sig) or sig.startswith("Lt(") or sig == "BoundsCheck"):
+        m = re.match(r"^(Add|Lt)\((.*),(.*)\):?", sig)
+        if m:
+            i_desc, rhs = m.group(2), m.group(3)
+            dom = cfg.dominators(b)
+            for sb in dom.get(s["bb"], ()):
+                t = b.term(sb)
+                if t["k"] != "switch":
+                    continue
+                k, pl, neg = trace_bool(b, t["discr"])
+                if k != "bin" or pl["rv"]["op"] not in ("Lt", "Gt"):
+                    continue
+                x, y = describe(b, pl["rv"]["a"]), describe(b, pl["rv"]["b"])
+                small, big, big_op = (x, y, pl["rv"]["b"]) if pl["rv"]["op"] == "Lt" else (y, x, pl["rv"]["a"])
+                tt, ft = bool_switch_targets(b, sb)
+                if neg:
+                    tt, ft = ft, tt
+                if small != i_desc or tt not in dom.get(s["bb"], ()):
+                    continue
+                # the guarded variable must not be written between the guard and the site
+                named = [i for i, l in enumerate(b.locals) if l.get("name") == i_desc]
+                if len(named) != 1:
+                    continue
+                between = cfg.reach(b, [tt], avoid=[sb]) & {x for x in b.reachable_blocks() if s["bb"] in cfg.reach(b, [x], avoid=[sb])}
+                between.discard(s["bb"]) if False else None
+                written = False
+                for bb2 in between:
+                    for st2 in b.blocks[bb2]["stmts"]:
+                        if st2["k"] == "assign" and st2["dst"]["l"] == named[0] and not (bb2 == s["bb"]):
+                            written = True
+                    t2 = b.term(bb2)
+                    if t2["k"] == "call" and t2.get("dst", {}).get("l") == named[0] and bb2 != s["bb"]:
+                        written = True
+                if written:
+                    continue
+                if m.group(1) == "Add":
+                    return "`%s + 1` dominated by the guard `%s < %s` (so it is below usize::MAX)" % (i_desc, small, big)
+                # bounds check: the guard's right side is the length of the slice that is indexed
+                if re.search(r"(^|[^a-z_])len\(", big) or "PtrMetadata" in big or big == rhs:
+                    return "bounds check dominated by the guard `%s < %s`" % (small, big)
+        if not sig.startswith("Add("):
+            return None
     # 2. Regex::new(<literal>).unwrap() when the literal compiles
     if s["kind"] == "call" and s["op"] == "unwrap" and sig.startswith("unwrap(new('"):
         lits = [(c, l) for (c, l) in rx.regex_literals(facts, re.escape(b.id) + "$") if c.dst["l"] == op_place(s["call"].args[0])["l"]]
